@@ -261,3 +261,17 @@ def refStateOp (j : Json) : Json :=
   | _, _ => jErr "refstate: bad arguments"
 
 end Tangelo.Driver
+
+namespace Tangelo.Driver
+open Tangelo.Codec Lean
+
+/-- {"op":"symlists","n_orbs":k,"utd":b} → number / spinz term lists as [[mode, "coef"],..] -/
+def symListsOp (j : Json) : Json :=
+  match getNat? (j.getObjValD "n_orbs") with
+  | some k =>
+    let utd := getBool j "utd"
+    let f := fun (l : List (Nat × Rat)) => Json.arr (l.map (fun (p, c) => Json.arr #[natJ p, Json.str (if c.den == 1 then toString c.num else s!"{c.num}/{c.den}")])).toArray
+    Json.mkObj [("number", f (Symmetry.numberList k utd)), ("spinz", f (Symmetry.spinzList k utd))]
+  | none => jErr "symlists"
+
+end Tangelo.Driver
